@@ -14,6 +14,7 @@ import Pog.Drv.Parser
 import Pog.Drv.Resolve
 import Pog.Drv.Extract
 import Pog.Drv.Dc
+import Pog.Drv.Loader
 /-
   Line protocol: one JSON request per line on stdin, one JSON reply per line on stdout.
     request  {"f": <function>, "a": [<args>], "u": {<codepoint>: {"w":bool,"d":bool,"l":str,"U":str,"iu":bool}}}
@@ -38,7 +39,8 @@ def dispatchers : List Dispatch := [
   dispatchParser,
   dispatchResolve,
   dispatchExtract,
-  dispatchDc
+  dispatchDc,
+  dispatchLoader
 ]
 
 def dispatch (f : String) (a : Array Json) (u : UInfo) : Except String Json :=
